@@ -5,6 +5,8 @@ parsers: every index / slice the Go code performs is in range, on every input.
 -/
 import Scalibr.Model.Parsers.Gradle
 import Scalibr.Model.Parsers.Gemfile
+import Scalibr.Model.Parsers.Dpkg
+import Scalibr.Model.Parsers.Requirements
 import Scalibr.Proofs.Parsers.Layout
 namespace Scalibr.Parsers
 
@@ -139,4 +141,274 @@ theorem parse_eq (bytes : List Char) :
   cases gemSections (scan bytes).1 none [] <;> rfl
 
 end Gemfile
+namespace Dpkg
+
+theorem indexSpParen_ge (s : List Char) : -1 ≤ indexSpParen s := by
+  induction s with
+  | nil => simp [indexSpParen]
+  | cons c t ih =>
+    simp only [indexSpParen]
+    split
+    · omega
+    · split <;> omega
+
+/-- a non-negative index really points at " (" -/
+theorem indexSpParen_split : ∀ (s : List Char) (i : Int), indexSpParen s = i → 0 ≤ i →
+    ∃ a b, s = a ++ ' ' :: '(' :: b ∧ (a.length : Int) = i := by
+  intro s
+  induction s with
+  | nil => intro i h hi; simp [indexSpParen] at h; omega
+  | cons c t ih =>
+    intro i h hi
+    simp only [indexSpParen] at h
+    split at h
+    · rename_i hc
+      simp only [Bool.and_eq_true, decide_eq_true_eq] at hc
+      obtain ⟨rfl, ht⟩ := hc
+      cases t with
+      | nil => simp at ht
+      | cons d t' =>
+        simp at ht; subst ht
+        exact ⟨[], t', rfl, by simp; omega⟩
+    · split at h
+      · omega
+      · obtain ⟨a, b, hs, hl⟩ := ih (indexSpParen t) rfl (by omega)
+        exact ⟨c :: a, b, by rw [hs]; rfl, by simp; omega⟩
+
+theorem containsSpParen_cons (c : Char) (t : List Char) :
+    containsSpParen (c :: t) = ((decide (c = ' ') && decide (t.head? = some '(')) || containsSpParen t) := by
+  cases t with
+  | nil => simp [containsSpParen]
+  | cons d t' =>
+    by_cases h1 : c = ' ' ∧ d = '('
+    · obtain ⟨rfl, rfl⟩ := h1; simp [containsSpParen]
+    · have hf : (decide (c = ' ') && decide ((d :: t').head? = some '(')) = false := by
+        simp only [List.head?_cons, Option.some.injEq, Bool.and_eq_false_iff, decide_eq_false_iff_not]
+        by_cases hc : c = ' '
+        · right; intro hd; exact h1 ⟨hc, hd⟩
+        · left; exact hc
+      rw [hf, Bool.false_or]
+      conv => lhs; unfold containsSpParen
+      split
+      · rename_i heq; simp at heq; exact absurd ⟨heq.1, heq.2.1⟩ h1
+      · rename_i heq; simp at heq; obtain ⟨_, rfl⟩ := heq; rfl
+      · rename_i heq; simp at heq
+
+theorem indexSpParen_neg_iff (s : List Char) : indexSpParen s = -1 ↔ containsSpParen s = false := by
+  induction s with
+  | nil => simp [indexSpParen, containsSpParen]
+  | cons c t ih =>
+    have hge := indexSpParen_ge t
+    rw [containsSpParen_cons]
+    by_cases hc : (decide (c = ' ') && decide (t.head? = some '(')) = true
+    · simp [indexSpParen, hc]
+    · simp only [indexSpParen, hc, Bool.false_eq_true, if_false, Bool.false_or, ← ih]
+      constructor
+      · intro h; split at h <;> omega
+      · intro h; simp [h]
+
+/-- both slices of `parseSourceNameVersion` are in range, and its error return is the condition `process` tests -/
+theorem sourceNVGo_eq (src : List Char) :
+    ∃ r, sourceNVGo src = some r ∧
+      (r = none ↔ (!src.isEmpty && containsSpParen src && decide (src.getLast? ≠ some ')')) = true) := by
+  unfold sourceNVGo
+  by_cases he : src.isEmpty = true
+  · exact ⟨some ([], []), by simp [he], by simp [he]⟩
+  · simp only [he, Bool.false_eq_true, if_false]
+    by_cases hi : indexSpParen src = -1
+    · have hc := (indexSpParen_neg_iff src).mp hi
+      exact ⟨some (src, []), by simp [hi], by simp [hc]⟩
+    · have hc : containsSpParen src = true := by
+        cases h : containsSpParen src with
+        | true => rfl
+        | false => exact absurd ((indexSpParen_neg_iff src).mpr h) hi
+      simp only [hi, ne_eq, not_false_eq_true, if_true]
+      by_cases hl : src.getLast? ≠ some ')'
+      · exact ⟨none, by simp [hl], by simp [he, hc, hl]⟩
+      · have hl' : src.getLast? = some ')' := by simpa using hl
+        have hge := indexSpParen_ge src
+        obtain ⟨a, b, hs, hal⟩ := indexSpParen_split src (indexSpParen src) rfl (by omega)
+        have hb : b ≠ [] := by
+          intro hb; subst hb; rw [hs] at hl'
+          have : (a ++ [' ', '(']).getLast? = some '(' := by simp
+          rw [this] at hl'; cases hl'
+        have hlen : (src.length : Int) = (a.length : Int) + 2 + b.length := by rw [hs]; simp; omega
+        have hbl : 0 < b.length := by cases b with | nil => exact absurd rfl hb | cons x y => simp
+        have g1 : ∃ n, goSliceI src 0 (indexSpParen src) = some n := by
+          unfold goSliceI; rw [if_pos (by omega)]; exact ⟨_, rfl⟩
+        have g2 : ∃ v, goSliceI src (indexSpParen src + 2) ((src.length : Int) - 1) = some v := by
+          unfold goSliceI; rw [if_pos (by omega)]; exact ⟨_, rfl⟩
+        obtain ⟨n, hn⟩ := g1
+        obtain ⟨v, hv⟩ := g2
+        refine ⟨some (n, v), by simp [hl', hn, hv], by simp [hl']⟩
+
+/-- `parts[2]` is in range behind the `len(parts) != 3` guard, the `Source` slices are in range: the Go-shaped body
+never panics and decides what `process` decides -/
+theorem processGo_eq (h : Hdr) : processGo h = some (process h) := by
+  unfold processGo process
+  generalize "installed".toList = I
+  generalize get h "Status".toList = status
+  generalize get h "Source".toList = src
+  generalize get h "Package".toList = name
+  generalize get h "Version".toList = ver
+  simp only []
+  by_cases h1 : status.isEmpty = true
+  · simp only [h1, if_true]
+  · simp only [h1, Bool.false_eq_true, if_false]
+    by_cases hlen : (splitSp status []).length ≠ 3
+    · simp only [hlen, ne_eq, not_false_eq_true, if_true]
+    · have hl3 : (splitSp status []).length = 3 := by simpa using hlen
+      obtain ⟨st, hst⟩ : ∃ st, (splitSp status [])[2]? = some st := by
+        cases hx : (splitSp status [])[2]? with
+        | some st => exact ⟨st, rfl⟩
+        | none => rw [List.getElem?_eq_none_iff] at hx; omega
+      simp only [hlen, if_false, goIndex, hst]
+      by_cases hi : st = I
+      · subst hi
+        simp only [ne_eq, not_true_eq_false, if_false]
+        by_cases hnv : (name.isEmpty || ver.isEmpty) = true
+        · simp only [hnv, if_true]
+        · simp only [hnv, Bool.false_eq_true, if_false]
+          obtain ⟨r, hr, hiff⟩ := sourceNVGo_eq src
+          rw [hr]
+          cases r with
+          | none =>
+            have := hiff.mp rfl
+            simp only [this, if_true]
+          | some nv =>
+            have : ¬ ((!src.isEmpty && containsSpParen src && decide (src.getLast? ≠ some ')')) = true) := by
+              intro hh; have := hiff.mpr hh; cases this
+            simp only [this, if_false]
+            simp
+      · have h2 : (some st ≠ some I) := by simpa using hi
+        simp only [ne_eq, hi, not_false_eq_true, if_true, h2]
+
+theorem loopGo_eq : ∀ (f : Nat) (ls : List Line) (acc : List (List Char × List Char)),
+    loopGo f ls acc = match loop f ls acc with | some x => .ok x | none => .err := by
+  intro f
+  induction f with
+  | zero => intro ls acc; simp [loopGo, loop]
+  | succ f ih =>
+    intro ls acc
+    unfold loopGo loop
+    by_cases hh : headSpTab ls = true
+    · simp [hh]
+    · simp only [hh, Bool.false_eq_true, if_false]
+      cases stanza ls [] none with
+      | none => rfl
+      | some x =>
+        obtain ⟨h, eof, rest⟩ := x
+        simp only [processGo_eq]
+        by_cases he : h.isEmpty = true
+        · simp only [he, if_true]
+          by_cases hf : eof = true
+          · simp [hf]
+          · simp only [hf, Bool.false_eq_true, if_false]; exact ih rest acc
+        · simp only [he, Bool.false_eq_true, if_false]
+          cases process h with
+          | fail => rfl
+          | skip =>
+            by_cases hf : eof = true
+            · simp [hf]
+            · simp only [hf, Bool.false_eq_true, if_false]; exact ih rest acc
+          | pkg n v =>
+            by_cases hf : eof = true
+            · simp [hf]
+            · simp only [hf, Bool.false_eq_true, if_false]; exact ih rest _
+
+theorem parse_eq (bytes : List Char) :
+    parse bytes = match loop ((rlines bytes).length + 2) (rlines bytes) [] with | some ps => .ok ps | none => .err := by
+  unfold parse; simp only [loopGo_eq]
+
+end Dpkg
+namespace Requirements
+
+theorem goSlice_dropLast (l : List Char) (h : l ≠ []) : goSliceI l 0 ((l.length : Int) - 1) = some l.dropLast := by
+  have hl : 0 < l.length := by cases l with | nil => exact absurd rfl h | cons a b => simp
+  unfold goSliceI
+  rw [if_pos (by omega)]
+  have : ((l.length : Int) - 1).toNat = l.length - 1 := by omega
+  simp [this, List.dropLast_eq_take]
+
+/-- the slice `l[:len(l)-1]` of `readLine` is always in range (it sits behind `HasSuffix(l, "\\")`) -/
+theorem readLogicalGo_eq : ∀ (ls : List Line) (b : List Char), readLogicalGo ls b = some (readLogical ls b) := by
+  intro ls
+  induction ls with
+  | nil => intro b; rfl
+  | cons l rest ih =>
+    intro b
+    simp only [readLogicalGo, readLogical]
+    split
+    · rfl
+    · split
+      · rename_i hl
+        have hne : rmComment l [] [] ≠ [] := by intro e; rw [e] at hl; simp at hl
+        rw [goSlice_dropLast _ hne]
+        exact ih _
+      · rfl
+
+theorem splitSub2_len (sep s : List Char) (h : containsSub sep s = true) :
+    ∃ a b, cutSub sep s [] = some (a, b) ∧ splitSub2 sep s = [a, b] := by
+  unfold containsSub at h
+  cases hc : cutSub sep s [] with
+  | none => rw [hc] at h; simp at h
+  | some ab => obtain ⟨a, b⟩ := ab; exact ⟨a, b, rfl, by simp [splitSub2, hc]⟩
+
+/-- `t[0]`, `t[1]` are in range: the separator was found, so `SplitN` returned two parts -/
+theorem getLowestVersionGo_eq (s : List Char) : getLowestVersionGo s = some (getLowestVersion s) := by
+  unfold getLowestVersionGo getLowestVersion
+  split
+  · rfl
+  · cases hf : List.find? (fun p => containsSub p s) ["===".toList, "==".toList, ">=".toList, "<=".toList, "~=".toList] with
+    | none => rfl
+    | some sep =>
+      have hc : containsSub sep s = true := by
+        have := List.find?_some hf; simpa using this
+      obtain ⟨a, b, h1, h2⟩ := splitSub2_len sep s hc
+      simp [h1, h2, goIndex]
+
+theorem beforeSemi_eq (l : List Char) : goIndex (splitN ';' 2 l) 0 = some (beforeSemi l) := by
+  rw [splitN2]
+  unfold beforeSemi goIndex
+  cases cutAt ';' l with
+  | none => rfl
+  | some ar => rfl
+
+theorem lineReqGo_eq (l0 : List Char) : lineReqGo l0 = some (lineReq l0) := by
+  unfold lineReqGo lineReq
+  simp only [beforeSemi_eq, getLowestVersionGo_eq]
+  split
+  · rfl
+  · split
+    · rfl
+    · generalize getLowestVersion _ = t
+      obtain ⟨name, version, comp⟩ := t
+      simp only []
+      split
+      · rfl
+      · split
+        · rfl
+        · split
+          · rfl
+          · split <;> rfl
+
+theorem loopGo_eq : ∀ (f : Nat) (ls : List Line) (acc : List (List Char × List Char)),
+    loopGo f ls acc = some (loop f ls acc) := by
+  intro f
+  induction f with
+  | zero => intro ls acc; simp [loopGo, loop]
+  | succ f ih =>
+    intro ls acc
+    cases ls with
+    | nil => simp [loopGo, loop]
+    | cons l rest =>
+      simp only [loopGo, loop, readLogicalGo_eq, lineReqGo_eq]
+      exact ih _ _
+
+theorem parse_eq (bytes : List Char) :
+    parse bytes = (if (scan bytes).2 then .err else .ok (loop ((scan bytes).1.length + 1) (scan bytes).1 [])) := by
+  unfold parse
+  simp only [loopGo_eq]
+
+end Requirements
 end Scalibr.Parsers
